@@ -7,3 +7,6 @@ import InToto.Properties.C09
 #print axioms InToto.C09.no_inspections
 #print axioms InToto.C09.empty_command_fails
 #print axioms InToto.C09.unstartable_command_fails
+#print axioms InToto.C09.acceptance_implies_all_inspections_ran
+#print axioms InToto.C09.last_stage_runs_a_prefix
+#print axioms InToto.C09.last_stage_accepts_iff
